@@ -93,7 +93,7 @@ func Solve(query, file string, timeoutS int, crossCheck bool, prefer string) *So
 	defer cancel()
 	type ans struct {
 		name, status, out string
-		dt               float64
+		dt                float64
 	}
 	ch := make(chan ans, len(solvers))
 	var wg sync.WaitGroup
@@ -174,7 +174,7 @@ func Solve(query, file string, timeoutS int, crossCheck bool, prefer string) *So
 }
 
 // GetModel re-runs a satisfiable query on z3 with get-value for the given terms.
-func GetModel(query string, terms []string, file string, timeoutS int) string {
+func GetModel(query string, terms []string, file string, timeoutS int, backend string) string {
 	q := strings.Replace(query, "(check-sat)\n", "", 1)
 	q += "(check-sat)\n"
 	if len(terms) > 0 {
@@ -184,9 +184,24 @@ func GetModel(query string, terms []string, file string, timeoutS int) string {
 	}
 	f := file + ".model.smt2"
 	os.WriteFile(f, []byte(q), 0o644)
-	for _, sv := range []string{"z3-new", "z3"} {
+	type cand struct {
+		name string
+		argv []string
+	}
+	cands := []cand{
+		{"z3-5.1.0", []string{"z3-new", fmt.Sprintf("-T:%d", timeoutS), f}},
+		{"z3-4.8.12", []string{"z3", fmt.Sprintf("-T:%d", timeoutS), f}},
+		{"cvc5-1.0.3", []string{"cvc5", "--produce-models", fmt.Sprintf("--tlimit=%d", timeoutS*1000), f}},
+	}
+	// the back end that found the model goes first
+	for i, c := range cands {
+		if c.name == backend {
+			cands[0], cands[i] = cands[i], cands[0]
+		}
+	}
+	for _, c := range cands {
 		ctx, cancel := context.WithTimeout(context.Background(), time.Duration(timeoutS+2)*time.Second)
-		cmd := exec.CommandContext(ctx, sv, fmt.Sprintf("-T:%d", timeoutS), f)
+		cmd := exec.CommandContext(ctx, c.argv[0], c.argv[1:]...)
 		var out bytes.Buffer
 		cmd.Stdout = &out
 		cmd.Run()
